@@ -17,6 +17,7 @@ RULE = (
     "sampled beyond; each on generated maps where the groups touch and interleave; plus foreign-voxel mutation and "
     "undefined-label inputs (in prediction, reference, both). Non-trivial = a group holding instances on both sides; "
     "distinct = hash of (arrays, group definition, input type)."
+    " Further families: group labels outside the arrays' dtype, labels congruent modulo 256 / 65536, duplicated labels in a definition, uint64 labels around 2^60, maps without background, sparse volumes beyond 2^18 / 2^20 / 2^22 voxels; two shards run under python -O."
 )
 ASSUMPTIONS = [
     "single-instance groups are compared with a matched-instance evaluator on the restricted arrays, only for configurations without a decision metric (statement-level ambiguity about the decision threshold, DESIGN.md rule 6)",
